@@ -249,6 +249,40 @@ pub fn main(args: &Args) -> ! {
     }
     rep.exhaustive = !capped_any;
     rep.part("e2_whole_connection", json!({"k": k, "cases": cs.len(), "executions": total, "capped": capped_any, "per_case": per_case}));
+    // stream data written before the handshake completed (0-RTT, accepted), with and without a Retry
+    // in between: delivered exactly once, in order, whatever subset of the first datagrams is lost
+    {
+        use crate::checks::c17;
+        let kb: u32 = if thorough { 8 } else { 5 };
+        let mut tasks = vec![];
+        let mut cfgs = vec![];
+        for wl in 0..c17::N_WL {
+            for retry in [false, true] {
+                let c = c17::Case { wl, accept: true, retry, hold: None, params: c17::PMode::Same, mask: 0, devs: vec![], alts: 3 };
+                cfgs.push(c17::make_cfg(base, &c));
+                for mask in 0..(1u64 << kb) {
+                    tasks.push((cfgs.len() - 1, c17::Case { mask, ..c.clone() }));
+                }
+            }
+        }
+        let n = tasks.len();
+        let (res, capped) = explore::e3(tasks, dl, |(i, c)| c17::run_case(base, c, &cfgs[*i], None));
+        rep.exhaustive &= !capped;
+        for ((_, c), r) in &res {
+            rep.evaluations += 1;
+            let rj = json!({"check":"c17","replay_with":"./check C17 --replay","wl":c.wl,"accept":c.accept,"retry":c.retry,"hold":c.hold,"params":format!("{:?}",c.params),"mask":c.mask,"devs":c.devs,"alts":c.alts});
+            match r {
+                Err(e) => rep.violation(Violation { signature: "0rtt:panic".into(), what: format!("early-data workload {} retry={} drop mask {:#b}: panic: {e}", c.wl, c.retry, c.mask), replay: rj }),
+                Ok(o) => {
+                    rep.distinct.insert(o.trace);
+                    for (sig, what) in &o.viol {
+                        rep.violation(Violation { signature: format!("0rtt:{sig}"), what: format!("early-data workload {} (0-RTT accepted) retry={} drop mask {:#b}: {what}", c.wl, c.retry, c.mask), replay: rj.clone() });
+                    }
+                }
+            }
+        }
+        rep.part("early_data_streams", json!({"K": kb, "cases": n, "executed": res.len(), "capped": capped}));
+    }
     rep.sample(json!({"case": cs[0].name, "deviations": [[3,0],[9,2]], "meaning": "datagram #3 dropped and datagram #9 delayed by 15 ms; everything else delivered FIFO after the link latency"}));
     rep.states += rep.distinct.len() as u64;
     rep.transitions += total;
